@@ -97,7 +97,7 @@ def run(check):
     n = check.pick(300, 4000)
     check.rule = ("foreach programs: item counts {0,1,2,3,7,16,64}, parallelism {default,1,2,n,>n,expression}, sub-workflows of 1-2 steps with or without a declared error "
                   "output, nested loops, per-item outcomes (success/error/crash/alt) and out-of-order completion forced by gates (item 0 finishes after item 1), a "
-                  "consumer of the loop result, cancellation mid-loop; oracles: returned data equals the reference (length, order, per-item provenance tag, exact "
+                  "consumer of the loop result, cancellation mid-loop, bursts of 16-64 items failing together, loops over an earlier step's result with slow items; oracles: returned data equals the reference (length, order, per-item provenance tag, exact "
                   "failing index sets), every item execution received its own item, high-water mark of concurrently open item executions <= parallelism, cancelled "
                   "loops never report success; non-trivial = >=2 items; distinct = (n, parallelism, failure pattern, out-of-order, returned id)")
     check.assumptions = ["an item 'fails' if its run returns an error or a non-success output (property statement)"]
@@ -124,6 +124,43 @@ def run(check):
              "outcome": {}, "n": nn, "par": par, "first_src": "sub_w0", "nested": False, "cancelled": True}
         case, sem = runfam.build_case("c13-c%04d" % i, g, triggers=[{"kind": "exec-start", "src": "sub_w0", "nth": k, "action": "cancel:0"}])
         items.append((case, sem, g))
+    # many items whose sub-workflow runs end with an error at the same moment (parallelism >= number of items)
+    for i in range(check.pick(100, 400)):
+        rng = random.Random(derive_seed(check.seed, "c13-burst", i))
+        nn = rng.choice([16, 32, 64])
+        sub = gen.sub_program("sub.yaml", 1)
+        fe = Step("loop", "foreach", sub=sub, items=Expr(In("items")), parallelism=rng.choice([nn, 8, 16]))
+        prog = Program([fe], {"success": {"d": Expr(Ref("loop", "outputs", "success", "data"))}, "failed": {"e": Expr(Ref("loop", "failed", "error"))}}, gen.BASE_INPUT)
+        scripts = gen.make_scripts([fe], {})
+        mode = rng.choice(["all", "odd"])
+        # the first wave of executions is released together, so that the item runs end at the same instant
+        by_tag = {"i%d" % j: {"outcome": "crash" if (mode == "all" or j % 2) else "success", "gate": "go"} for j in range(nn)}
+        scripts["sub_w0"]["exec_by_tag"] = by_tag
+        g = {"program": prog, "scripts": scripts, "input": {"tag": "T1", "items": [{"tag": "i%d" % j} for j in range(nn)]}, "shape": "burst of failing items n=%d fail=%s" % (nn, mode),
+             "outcome": by_tag, "n": nn, "par": fe.fields["parallelism"], "first_src": "sub_w0", "nested": False}
+        case, sem = runfam.build_case("c13-b%04d" % i, g, triggers=[{"kind": "exec-start", "src": "sub_w0", "nth": min(nn, fe.fields["parallelism"]), "action": "open:go"}])
+        items.append((case, sem, g))
+    # a loop over the result of an earlier step whose items take a while (slow deployment of the sub-workflow's step): nothing
+    # else is active while the items run
+    for i in range(check.pick(20, 120)):
+        rng = random.Random(derive_seed(check.seed, "c13-after", i))
+        nn = rng.choice([2, 3, 5])
+        par = rng.choice([1, 2])
+        sub = gen.sub_program("sub.yaml", 1)
+        how = rng.choice(["items", "wait_for"])
+        fe = Step("loop", "foreach", sub=sub, parallelism=par,
+                  items=[{"tag": gen.tagref("a")}] + [{"tag": "k%d" % j} for j in range(nn - 1)] if how == "items" else [{"tag": "k%d" % j} for j in range(nn)])
+        if how == "wait_for":
+            fe.fields["wait_for"] = Expr(Ref("a", "outputs", "success"))
+        steps = [gen.plugin_step("a", Expr(In("tag"))), fe]
+        rng.shuffle(steps)
+        prog = Program(steps, {"success": {"d": Expr(Ref("loop", "outputs", "success", "data"))}, "failed": {"e": Expr(Ref("loop", "failed", "error"))}}, gen.BASE_INPUT)
+        scripts = gen.make_scripts(steps, {})
+        scripts["sub_w0"]["deploys"] = [{}, {"delay_ms": rng.choice([45, 80])}]
+        g = {"program": prog, "scripts": scripts, "input": {"tag": "T1"}, "shape": "loop after a step, slow items n=%d par=%d via %s" % (nn, par, how), "outcome": {}, "n": nn, "par": par,
+             "first_src": "sub_w0", "nested": False}
+        case, sem = runfam.build_case("c13-a%04d" % i, g)
+        items.append((case, sem, g))
     stats = {"max_hwm": 0, "hwm_equal_parallelism": 0, "out_of_order_runs": 0, "success_results": 0, "failure_results": 0, "cancelled_runs": 0}
     with harness.Runner() as rn:
         if not rn.hang_oracle_works():
@@ -138,6 +175,8 @@ def run(check):
             d = o["death"]
             if d["kind"] == "deadlock":
                 check.report("loop@hang:" + d["key"][len("deadlock@"):][:120], "loop run hung (%s): %s" % (g["shape"], d["key"]), {"case": case, "detail": d.get("detail", "")[:3000]})
+            elif d["kind"] in ("panic", "fatal"):
+                check.report("loop@crash:" + d["key"][:120], "process died while a loop was running (%s): %s" % (g["shape"], d.get("message", "")[:200]), {"case": case, "detail": d.get("detail", "")[:3000]})
             else:
                 check.inconclusive_case(cid, "%s %s" % (d["kind"], d["key"]))
             continue
